@@ -1,0 +1,34 @@
+/*
+ * Verification hooks (compiled in only with -DIMB_VERIF).
+ * With the guard off this header defines nothing but empty macros.
+ */
+#ifndef IMB_VERIF_HOOKS_H
+#define IMB_VERIF_HOOKS_H
+
+#ifdef IMB_VERIF
+#include "intel-ipsec-mb.h"
+
+/* stage hook kinds */
+#define IMB_VERIF_SUBMIT_CIPHER 0
+#define IMB_VERIF_SUBMIT_HASH   1
+#define IMB_VERIF_FLUSH_CIPHER  2
+#define IMB_VERIF_FLUSH_HASH    3
+/* ORed into kind when dispatch used job->suite_id[] (burst API) */
+#define IMB_VERIF_VIA_SUITE_ID 8
+
+typedef void (*imb_verif_stage_cb_t)(IMB_MGR *state, const IMB_JOB *job, int kind, unsigned idx,
+                                     const IMB_JOB *ret);
+
+/* called after every dispatch through the cipher/hash submit/flush tables, if set */
+IMB_DLL_EXPORT extern imb_verif_stage_cb_t imb_verif_stage_cb;
+/* ANDed into the result of cpu_feature_detect(); all ones by default */
+IMB_DLL_EXPORT extern uint64_t imb_verif_feature_mask;
+
+#define IMB_VERIF_STAGE(_state, _job, _kind, _idx, _ret)                                           \
+        do {                                                                                       \
+                if (imb_verif_stage_cb != NULL)                                                    \
+                        imb_verif_stage_cb(_state, _job, _kind, _idx, _ret);                       \
+        } while (0)
+#endif /* IMB_VERIF */
+
+#endif /* IMB_VERIF_HOOKS_H */
